@@ -19,6 +19,9 @@ def check(tree, rep, tier='quick', seed=0):
     core = get_core(tree)
     R.k0_solve_shape(core, rep)          # every requested form is known before the first line is attempted
     R.k12_schedule_once(core, rep)       # a demanded line is queued and stays queued until it is attempted
+    R.k13_add_form(core, rep)            # a form that takes part gets its required lines queued however it was first touched
+    from ..linerules import l2c_generators_consumed_once
+    l2c_generators_consumed_once(tree, rep)      # a demand (or a gate) written inside a generator that nothing consumes never happens
     rep.extra['solver_roles'] = core.solver.describe()
     R.k1_success_condition(core, rep)
     R.k1b_cli_reports(core, rep)
